@@ -56,7 +56,7 @@ def main():
             res['patch_error'] = out[-600:]
             print(json.dumps(res, indent=1))
             return 2
-        res['files_changed'] = [l.split()[-1] for l in out.splitlines() if l.startswith('Applied patch') or l.startswith('Checking patch')][:10]
+        res['files_changed'] = sorted({l.split()[2].rstrip('.') for l in out.splitlines() if l.startswith('Checking patch')})[:10]
         env_bad = dict(os.environ, PYTHONPATH=bad, PYTHONHASHSEED='0')
         env_clean = dict(os.environ, PYTHONPATH=clean, PYTHONHASHSEED='0')
         code, out = sh([PY, '-m', 'pytest', '-q', '-p', 'no:cacheprovider', 'tests'], cwd=bad, env=env_bad)
